@@ -317,6 +317,7 @@ class KeyChecker:
                               '(E1 over the orderings <,=,>; sequence tail over the exhaustion cases)')
         self.atom_cache = {}
         self.tables_seen = {}
+        self.fn_cover = {}
 
     def check_atom_fn(self, kind, extra, loc=None):
         fid = extra[0] if isinstance(extra, tuple) else extra
@@ -334,11 +335,14 @@ class KeyChecker:
                       f'component comparison {fid} is not a three-way total order: {info}',
                       loc=f['loc'] if f else None, fn=fid, detail=info if ok else None)
 
-    def factory(self, f, expect_tables=None, nparams=None, extra_covered=()):
-        """Run the KEY rule on every tree insertion performed by function f.  Returns table names hit."""
+    def factory(self, f, expect_tables=None, nparams=None, extra_covered=(), second=None, this2=None):
+        """Run the KEY rule on every tree insertion performed by function f (first request) against the
+        tree operations of a later request `second` (default: f again).  Returns table names hit."""
         F, S, ck = self.F, self.S, self.ck
         n = len(f['params'])
         fid = f['id']
+        f2 = second or f
+        n2 = len(f2['params'])
         hit = []
         try:
             runs1 = S.run(fid)
@@ -352,9 +356,10 @@ class KeyChecker:
                 continue
             base_eff = len(st1.effects)
             try:
-                runs2 = S.run(fid, args=qparams(n), state=st1.fork())
+                th2 = this2(st1, _v1) if this2 else None
+                runs2 = S.run(f2['id'], this=th2, args=qparams(n2), state=st1.fork())
             except Unsupported as e:
-                raise AnalysisBroken(f'{fid}: outside the evaluator language: {e}')
+                raise AnalysisBroken(f'{f2["id"]}: outside the evaluator language: {e}')
             for st2, kind2, _v2 in runs2:
                 if kind2 != 'return':
                     continue
@@ -364,12 +369,12 @@ class KeyChecker:
                         if cont1 != cont2:
                             continue
                         tname = self.table_name(cont1, st2)
-                        inst = f'{contracts.short(contracts.fn_qname(fid))}/{tname}' + ('' if t2.endswith('insert') else '/find')
+                        inst = f'{contracts.short(contracts.fn_qname(f2["id"]))}/{tname}' + ('' if t2.endswith('insert') else '/find')
                         if inst in self.tables_seen:
                             continue
                         self.tables_seen[inst] = True
                         hit.append(tname)
-                        self.pair(f, inst, snap2, objP, keyQ, compQ, ifid2, n, extra_covered)
+                        self.pair(f2, inst, snap2, objP, keyQ, compQ, ifid2, n2, extra_covered)
         return hit
 
     def table_name(self, cont, st):
@@ -435,10 +440,22 @@ class KeyChecker:
             if isinstance(c, tuple) and c and c[0] in ('found', 'noelem'):
                 continue
             covered |= {p - Q for p in params_in(c) if p >= Q}
-        missing = [i for i in range(nparams) if i not in covered]
-        ck.check(self.R_cover, inst, not missing,
-                 f'parameter(s) {[f["params"][i]["name"] or i for i in missing]} of {f["id"]} take no part in the key comparison',
-                 loc=f['loc'], fn=f['id'], detail={'compared': sample})
+        # cover is judged per requesting function over all the tables it consults (a nested table is
+        # selected by the outer key: Scope -> overload set by name -> entry by type)
+        fc = self.fn_cover.setdefault(f['id'], {'f': f, 'n': nparams, 'covered': set(), 'tables': [], 'samples': []})
+        fc['covered'] |= covered
+        fc['tables'].append(inst)
+        fc['samples'].extend(sample)
+
+    def finish_cover(self):
+        for fid, fc in sorted(self.fn_cover.items()):
+            f = fc['f']
+            missing = [i for i in range(fc['n']) if i not in fc['covered']]
+            inst = contracts.short(contracts.fn_qname(fid)) + '(' + ', '.join(contracts.short(p['t']) for p in f['params']) + ')'
+            self.ck.check(self.R_cover, inst, not missing,
+                          f'parameter(s) {[f["params"][i]["name"] or i for i in missing]} of {fid} take no part in any key '
+                          f'comparison of the tables it consults ({", ".join(sorted(set(fc["tables"])))})',
+                          loc=f['loc'], fn=fid, detail={'compared': fc['samples'][:6]})
 
     @staticmethod
     def seq_of(pair):
